@@ -5,6 +5,8 @@ import Qhttp.Props.C02
 import Qhttp.Lemmas.ProxyTarget
 import Qhttp.Lemmas.ProxyHead
 import Qhttp.Lemmas.ProxyHolds
+import Qhttp.Lemmas.ProxyNoLen
+import Qhttp.Lemmas.ProxyBad
 /-
   C12 — the proxy forwards the client's request upstream unaltered in meaning.
 -/
@@ -463,11 +465,12 @@ theorem method_mem_of_parse {head : Bytes} {rh : Parser.ReqHead}
     executable predicate the driver evaluates on traces of the real proxy holds on the model's
     run.  Explicit hypotheses: `HdrWf` of the client's parsed header map (NOT guaranteed by the
     library: known finding, `empty_name_forwarded`), and a peer address text without CR and ','.
-    Not covered (full statement would also quantify over them): streams whose head is incomplete
-    or rejected (`holds` then only asks that nothing reaches the upstream server) and accepted
-    heads without a declared length (`Content-Length` absent, or negative — the latter is false:
-    the socket treats the request as finished and drops later body bytes, scenario
-    `new feed:<GET /a HTTP/1.1 CRLF Content-Length: -5 CRLF CRLF> turn feed:616263 turn turn`). -/
+    The other streams (head incomplete or rejected, no declared length) are covered by
+    `holds_run_all` below.  A NEGATIVE declared length other than -1 is excluded there because the
+    property is false for it: the socket treats the request as finished at once and drops later
+    body bytes, scenario
+    `new feed:<GET /a HTTP/1.1 CRLF Content-Length: -5 CRLF CRLF> turn feed:616263 turn turn`
+    (harness: model = library, `holds` false on both). -/
 theorem holds_run (env : Env) (c : Cfg) (evs : List PEv) (hshape : relayShape evs = true)
     (r : C02.Req) (hreq : C02.req env (clientStream evs) = some r)
     (HdrWf : ∀ head f, C01.headOf (clientStream evs) = some head → C01.expect env head = some f →
@@ -564,6 +567,194 @@ theorem body_in_order (env : Env) (c : Cfg) (hc : c.refuse = false) (evs : List 
   · obtain ⟨a, _, d, e1, e2⟩ := hP.connected h
     exact ⟨a, d, e1, e2⟩
 
+/-! ### every stream of the relay shape
+
+  `ProxyGen.lean` repeats the relay induction generically in the socket invariant (`SockI`);
+  `ProxyNoLen.lean` supplies the invariant of a socket whose accepted head declares no length
+  (nothing is cut, every byte after the blank line is handed out), `ProxyBad.lean` shows that
+  streams without an acceptable head are never routed. -/
+
+/-- `holds` from its clauses, declared length or not -/
+theorem holds_of_clauses' (env : Env) (c : Cfg) (evs : List PEv) (obs : List Obs)
+    (head : Bytes) (f : Snap) (m : Http.Msg) (meth tgt ver : Bytes) (ent : Bytes)
+    (hc : c.refuse = false)
+    (h1 : C01.headOf (clientStream evs) = some head) (h2 : C01.expect env head = some f)
+    (h3 : (upstreamBytes obs).isEmpty = false) (h4 : Http.parse (upstreamBytes obs) = some m)
+    (ro : Option C02.Req) (hreq : C02.req env (clientStream evs) = ro)
+    (hent : (match ro with
+             | some r => C02.entitled r
+             | none => (clientStream evs).drop (head.length + 4)) = ent)
+    (h5 : splitF [SP] (m.start.length + 1) none m.start = [meth, tgt, ver])
+    (ha : (meth == methodToString f.method && ver == lit ['H','T','T','P','/','1','.','1'] &&
+           !containsByte CR tgt && !containsByte LF tgt &&
+           (let (p, q) := match breakOn [63] tgt with | some (a, b) => (a, 63 :: b) | none => (tgt, [])
+            Fs.pctDecode p == 47 :: c.path &&
+            !containsByte SP q && Fs.pctDecode q == Fs.pctDecode (rawQuery f.rawPath))) = true)
+    (hb : f.headers.all (fun e => lower e.1 == lower XFF || lower e.1 == lower XRI ||
+                                vals e.1 m.headers == vals e.1 f.headers) = true)
+    (hx : (let combined := (m.headers.filter fun h => lower h.1 == lower XFF).flatMap
+                           (fun h => splitF [44, 32] (h.2.length + 1) none h.2)
+           combined.getLast? == some c.peerIP &&
+           (f.headers.filter fun e => lower e.1 == lower XFF).all fun e =>
+              (splitF [44, 32] (e.2.length + 1) none e.2).all fun v => combined.contains v) = true)
+    (hr : (if HeaderMap.contains XRI f.headers then vals XRI m.headers == vals XRI f.headers
+           else vals XRI m.headers == [c.peerIP]) = true)
+    (hbody : (m.body.isPrefixOf ent && (if settled evs then m.body == ent else true)) = true) :
+    holds env c evs obs = true := by
+  unfold holds
+  simp only [hc, Bool.false_eq_true, if_false, h1, h2, h3, h4, h5, hreq]
+  cases ro with
+  | none =>
+    simp only [] at hent
+    subst hent
+    simp only [Bool.and_eq_true] at ha hb hx hr hbody ⊢
+    exact ⟨⟨⟨⟨⟨ha, hb⟩, hx⟩, hr⟩, hbody.1⟩, hbody.2⟩
+  | some r =>
+    simp only [] at hent
+    subst hent
+    simp only [Bool.and_eq_true] at ha hb hx hr hbody ⊢
+    exact ⟨⟨⟨⟨⟨ha, hb⟩, hx⟩, hr⟩, hbody.1⟩, hbody.2⟩
+
+
+/-- `holds` from the relay invariant at the end of the run (`ProxyL.run_final`, `run_final_gen`) -/
+theorem holds_of_final (env : Env) (c : Cfg) (evs : List PEv) (obs : List Obs)
+    (hshape : relayShape evs = true) (hc : c.refuse = false)
+    (head : Bytes) (f : Snap) (rh : Parser.ReqHead)
+    (hhead : C01.headOf (clientStream evs) = some head) (hexp : C01.expect env head = some f)
+    (f1 : f.method = rh.method) (f2 : f.rawPath = rh.rawPath) (f3 : f.headers = rh.headers)
+    (hm : rh.method ∈ eightCodes) (hwf : C03L.HdrWf rh.headers)
+    (hcr : CR ∉ c.peerIP) (hcomma : (44 : UInt8) ∉ c.peerIP)
+    (ro : Option C02.Req) (hreq : C02.req env (clientStream evs) = ro) (ent : Bytes)
+    (hent : (match ro with
+             | some r => C02.entitled r
+             | none => (clientStream evs).drop (head.length + 4)) = ent)
+    (hfinal : (upBytes obs = [] ∧ ¬ ∃ pre, evs = pre ++ [PEv.turn]) ∨
+      ∃ d, upBytes obs = upstreamHead c (reqSock rh) ++ d ∧ d <+: ent ∧
+        ((∃ pre, evs = pre ++ [PEv.turn]) → d = ent)) :
+    holds env c evs obs = true := by
+  rcases hfinal with ⟨hu, hnt⟩ | ⟨d, hu, hpre, hfull⟩
+  · have hu' : upstreamBytes obs = [] := hu
+    have hns : settled evs = false := by
+      cases hs : settled evs with
+      | false => rfl
+      | true => exact absurd (ends_with_turn hshape hs) hnt
+    unfold holds
+    simp [hc, hhead, hexp, hu', hns]
+  · have hu' : upstreamBytes obs = upstreamHead c (reqSock rh) ++ d := hu
+    have hparse := ProxyL.head_wellformed c (reqSock rh) d hm hwf hcr
+    rw [← hu'] at hparse
+    have hne : (upstreamBytes obs).isEmpty = false := by
+      rw [hu']
+      cases hh : upstreamHead c (reqSock rh) with
+      | nil => exact absurd hh (upstreamHead_ne_nil c _)
+      | cons x xs => rfl
+    refine holds_of_clauses' env c evs _ head f _ _ _ _ ent hc hhead hexp hne hparse ro hreq hent
+      (startLine_split c (reqSock rh) hm) ?_ ?_ ?_ ?_ ?_
+    · have hct := clause_target c rh.rawPath
+      have e1 : (methodToString (reqSock rh).method == methodToString f.method) = true := by
+        rw [f1]; simp [reqSock]
+      have e2 : (Parser.HTTP11 == lit ['H','T','T','P','/','1','.','1']) = true := by decide
+      simp only [Bool.and_eq_true] at hct ⊢
+      rw [f2]
+      exact ⟨⟨⟨⟨e1, e2⟩, hct.1.1⟩, hct.1.2⟩, hct.2⟩
+    · have := clause_headers c rh.headers
+      rw [f3]; exact this
+    · have := clause_xff c rh.headers hcomma
+      rw [f3]; exact this
+    · have := clause_xri c rh.headers
+      rw [f3]; exact this
+    · show (d.isPrefixOf ent && (if settled evs then d == ent else true)) = true
+      rw [Bool.and_eq_true]
+      refine ⟨List.isPrefixOf_iff_prefix.mpr hpre, ?_⟩
+      split
+      · rename_i hs
+        rw [hfull (ends_with_turn hshape hs)]; simp
+      · rfl
+
+/-- the parsed head of an accepted request without a declared length -/
+theorem expect_parsedN {env : Env} {head : Bytes} {f : Snap} (h : C01.expect env head = some f)
+    (ht : f.total = -1) :
+    ∃ rh, ParsedN env head rh ∧ f.method = rh.method ∧ f.rawPath = rh.rawPath ∧ f.headers = rh.headers := by
+  unfold C01.expect at h
+  split at h
+  · cases h
+  · rename_i rh hp
+    split at h
+    · cases h
+    · rename_i p q hu
+      simp only [Option.some.injEq] at h
+      subst h
+      exact ⟨rh, ⟨hp, ⟨p, q, hu⟩, ht⟩, rfl, rfl, rfl⟩
+
+theorem req_none_of_neg {env : Env} {stream head rest : Bytes} {f : Snap}
+    (hb : breakOn CRLF2 stream = some (head, rest)) (h : C01.expect env head = some f) (ht : f.total < 0) :
+    C02.req env stream = none := by
+  unfold C02.req
+  simp only [hb, h, ht, if_true]
+
+theorem req_some_of_nonneg {env : Env} {stream head rest : Bytes} {f : Snap}
+    (hb : breakOn CRLF2 stream = some (head, rest)) (h : C01.expect env head = some f) (ht : 0 ≤ f.total) :
+    ∃ r, C02.req env stream = some r := by
+  unfold C02.req
+  simp only [hb, h, if_neg (by omega : ¬ f.total < 0)]
+  exact ⟨_, rfl⟩
+
+/-- **C12, main theorem, all streams.** For every environment, configuration and event list
+    `new (feed seg | turn)*` — whatever the client's byte stream is: head never complete, head
+    rejected, accepted with a declared body length, accepted without one — the executable
+    predicate holds on the model's run, provided that an accepted head does not declare a
+    NEGATIVE length other than -1 (there the property is false, see `holds_run`) and its header
+    map is `HdrWf` (known finding), and the peer address text has no CR and no ','. -/
+theorem holds_run_all (env : Env) (c : Cfg) (evs : List PEv) (hshape : relayShape evs = true)
+    (hclean : ∀ head f, C01.headOf (clientStream evs) = some head → C01.expect env head = some f →
+      -1 ≤ f.total ∧ C03L.HdrWf f.headers)
+    (hcr : CR ∉ c.peerIP) (hcomma : (44 : UInt8) ∉ c.peerIP) :
+    holds env c evs (Proxy.run env c evs).sock.log = true := by
+  by_cases hc : c.refuse = true
+  · unfold holds; simp [hc]
+  have hc' : c.refuse = false := by simpa using hc
+  have hok := relayPEv_of_shape hshape
+  cases hbk : breakOn CRLF2 (clientStream evs) with
+  | none =>
+    -- the head never completes
+    have hbad : BadStream env (fedP evs) := by
+      intro head rest h; rw [← clientStream_eq, hbk] at h; cases h
+    have hu : upstreamBytes (Proxy.run env c evs).sock.log = [] := run_bad env c evs hbad hok
+    unfold holds
+    simp [hc', C01.headOf, hbk, hu]
+  | some pr =>
+    obtain ⟨head, restF⟩ := pr
+    have hhead : C01.headOf (clientStream evs) = some head := by unfold C01.headOf; rw [hbk]; rfl
+    have hfin' : breakOn CRLF2 (fedP evs) = some (head, restF) := by rw [← clientStream_eq]; exact hbk
+    cases hexp : C01.expect env head with
+    | none =>
+      have hbad : BadStream env (fedP evs) := by
+        intro head' rest h
+        rw [hfin'] at h
+        simp only [Option.some.injEq, Prod.mk.injEq] at h
+        rw [← h.1]; exact hexp
+      have hu : upstreamBytes (Proxy.run env c evs).sock.log = [] := run_bad env c evs hbad hok
+      unfold holds
+      simp [hc', hhead, hexp, hu]
+    | some f =>
+      obtain ⟨htot, hwf⟩ := hclean head f hhead hexp
+      by_cases hneg : f.total < 0
+      · -- no declared length
+        have ht : f.total = -1 := by omega
+        obtain ⟨rh, hp, f1, f2, f3⟩ := expect_parsedN hexp ht
+        have hreq := req_none_of_neg hbk hexp hneg
+        have hI := sockI_nolen env (evs.map proj) hp (fedP evs) restF hfin'
+        have hfinal := run_final_gen hI c hc' hok
+        have hdrop : (clientStream evs).drop (head.length + 4) = restF := by
+          rw [C02L.breakOn_some_eq CRLF2 _ _ _ hbk]
+          apply List.drop_left'
+          simp [C02.CRLF2_length]
+        exact holds_of_final env c evs _ hshape hc' head f rh hhead hexp f1 f2 f3
+          (method_mem_of_parse hp.parse) (by rw [← f3]; exact hwf) hcr hcomma none hreq restF hdrop hfinal
+      · obtain ⟨r, hreq⟩ := req_some_of_nonneg hbk hexp (by omega)
+        exact holds_run env c evs hshape r hreq
+          (fun head' f' h1 h2 => (hclean head' f' h1 h2).2) hcr hcomma
+
 /-! ### non-vacuity of the run theorems: a POST with a 3-byte body whose head, blank line and body
     are cut across three segments, the connection completing after the first body byte -/
 
@@ -587,6 +778,19 @@ example : holds envEx {} evsEx (Proxy.run envEx {} evsEx).sock.log = true := by 
 /-- and it is not true for trivial reasons: the upstream server received the head and `abc` -/
 example : (Http.parse (upstreamBytes (Proxy.run envEx {} evsEx).sock.log)).map (·.body) = some [97, 98, 99] := by
   decide +kernel
+
+/-- no declared length: everything after the blank line is the body, cut around the connecting turn -/
+def evsNoLen : List PEv :=
+  [.sock .new, .sock (.feed [80, 85, 84, 32, 47, 32, 72, 84, 84, 80, 47, 49, 46, 49, 13, 10, 13, 10, 97]),
+   .turn, .sock (.feed [98, 99]), .turn]
+example : relayShape evsNoLen = true := by decide
+example : holds envEx {} evsNoLen (Proxy.run envEx {} evsNoLen).sock.log = true := by decide +kernel
+example : (Http.parse (upstreamBytes (Proxy.run envEx {} evsNoLen).sock.log)).map (·.body) = some [97, 98, 99] := by
+  decide +kernel
+/-- a rejected head (`BAD CRLF CRLF`): nothing reaches the upstream server -/
+def evsBad : List PEv := [.sock .new, .sock (.feed [66, 65, 68, 13, 10, 13, 10]), .turn, .turn]
+example : holds envEx {} evsBad (Proxy.run envEx {} evsBad).sock.log = true ∧
+    upstreamBytes (Proxy.run envEx {} evsBad).sock.log = [] := by decide +kernel
 
 end run_examples
 
